@@ -289,7 +289,7 @@ PARAMS = [["TP", C], ["TP", A], ["NP", None], ["NP", 7], ["SP"], ["EP"], ["LP", 
 
 def arg_specs():
     """All 6 arg kinds, nested once."""
-    base = [["TA", BOOL], ["TA", QB], ["NA", 0], ["NA", 5], ["SA", ""], ["SA", "hé✓"], ["EA", []], ["EA", ["a.b", "c"]],
+    base = [["TA", BOOL], ["TA", QB], ["NA", 0], ["NA", 5], ["SA", ""], ["SA", "hé✓"], ["SA", "  padded\n"], ["VA", 2, ["NP", None]], ["EA", []], ["EA", ["a.b", "c"]],
             ["VA", 0, ["TP", A]], ["VA", 1, ["NP", 7]]]
     out = list(base)
     out.append(["SeqA", []])
@@ -305,7 +305,7 @@ def arg_specs():
 def leaf_types():
     return [
         QB, ["I"], BOOL, UNIT, ["Unit", 3], ["Unit", 0],
-        ["V", 0, C], ["V", 1, A], ["Alias", "al", C], ["Alias", "lin", A],
+        ["V", 0, C], ["V", 1, A], ["Alias", "al", C], ["Alias", "lin", A], ["Alias", " padded ", C],
         ["Opaque", "ext.x", "Tc", C, []], ["Opaque", "ext.x", "Tl", A, [["TA", QB]]],
         ["Opaque", "ext.y", "Tn", C, [["NA", 3], ["SA", "s"], ["SeqA", [["TA", BOOL]]]]],
         INT5, ["int", 0], ["float"], ["string"],
